@@ -91,7 +91,11 @@ def scanner_obligations(ctx, rule_prefix: str = "") -> bool:
     f = s.f
     P = rule_prefix
     if not s.ok():
-        _emit(ctx, P, "R1", "TAINT", f, "scanner shape", False, "iter_find_needle is not `hay = carry + fp.read(..)` searched with hay.find(needle, ..) in two nested loops")
+        # the scanner has been re-implemented in a form these rules do not understand (e.g. one rolling window): nothing is
+        # claimed about it (undecided); consumers of the scanner summary (the escape analysis) cannot use the summary then
+        rule = P if P.startswith("R8") else "R1"
+        ctx.undecided(rule, "TAINT", f, ("[R1] " if P.startswith("R8") else "") + "scanner shape",
+                      "iter_find_needle is not `hay = carry + fp.read(..)` searched with hay.find(needle, ..) in two nested loops")
         return False
     # ---- R1: provenance of the carry
     r1 = True
